@@ -119,6 +119,20 @@ Proof. reflexivity. Qed.
 Lemma manifest_keep_is r : manifest_keep r = manifest_keep_d r.
 Proof. unfold manifest_keep, manifest_keep_d. destruct (aget policy_key (r_fields r)); reflexivity. Qed.
 
+(* validate.go checkOwnership = three requireValue *)
+Lemma owned_by_is rel_name rel_ns f :
+  owned_by rel_name rel_ns f
+  = require_value_d managed_by_key "Helm" f && require_value_d rel_name_key rel_name f
+    && require_value_d rel_ns_key rel_ns f.
+Proof.
+  unfold owned_by, require_value_d, c_req_missing, c_req_differs, vstr_eqb. env_simpl.
+  destruct (aget managed_by_key f) as [a|]; [|reflexivity].
+  destruct (aget rel_name_key f) as [b|]; [|cbn; destruct (String.eqb a "Helm"); reflexivity].
+  destruct (aget rel_ns_key f) as [c|]; cbn;
+    destruct (String.eqb a "Helm"), (String.eqb b rel_name); try reflexivity;
+    destruct (String.eqb c rel_ns); reflexivity.
+Qed.
+
 Lemma prune_pick_is h dep total maxkeep picked :
   picked + List.length h <= total ->
   prune_pick h dep total maxkeep picked = prune_pick_d h dep total maxkeep picked.
